@@ -168,7 +168,10 @@ def main(argv=None):
     common.setup_impl_env()
     impl = Impl()
     ck.run_witnesses(["w14", "w17"])
-    ck.prove()
+    ck.prove(extra_targets=["Bridge/BridgeQuery.v"],
+             gen_kernels=["query_header", "QString.check", "QInteger.check", "QFunction.check", "QDict.check",
+                          "QList.check", "QVariable.check", "qtypes", "_parse_token", "parse_methods", "parse",
+                          "create_namespace", "get_return", "query_footer"])  # tie B: translate/k_query.py
     have_driver = ck.driver()
 
     quick = ck.tier == "quick"
